@@ -2,6 +2,7 @@ import Texel.Proofs.SnapF
 import Texel.Proofs.RingShape
 import Texel.Proofs.NoTwice
 import Texel.Proofs.NoCollapse
+import Texel.Gen.Flags
 /-! # C05 — returned rings are well formed, correctly oriented, collapse policy respected
 
 Proved here on the functional model `snapPolygonF` (all polygons, valid or not, all configurations):
@@ -178,5 +179,12 @@ theorem nodup_no_closing_duplicate (r : List P) (h : r.Nodup) (h2 : 2 ≤ r.leng
 -- non-vacuity: an L-shaped polygon with a hole on a 64x64 grid at level 4: one polygon, shell with positive and hole with negative area
 #guard (snapPolygonF ⟨0, 0, 4, 6⟩ [[⟨8, 8⟩, ⟨200, 8⟩, ⟨200, 200⟩, ⟨8, 200⟩], [⟨60, 60⟩, ⟨60, 140⟩, ⟨140, 140⟩, ⟨140, 60⟩]] [4] ⟨false, false, false⟩).toOption.map
     (fun r => r.map fun e => e.2.toList.map fun pg => pg.toList.map area2) == some [[[288, -50]]]
+
+/-- how the two options of this property are requested from the tool (re-extracted from `main.go` on every run): the configuration fields
+are fed by the flags of their own names, and each flag is read from its alias and from the environment variable named after itself -/
+theorem C05_options_requested :
+    "KeepPointsAndLines=Bool:keeppointsandlines" ∈ Gen.Flags.configPlumbing ∧ "ReverseWindingOrder=Bool:reversewindingorder" ∈ Gen.Flags.configPlumbing ∧
+    "BoolFlag keeppointsandlines pl env:keeppointsandlines" ∈ Gen.Flags.flags ∧ "BoolFlag reversewindingorder rwo env:reversewindingorder" ∈ Gen.Flags.flags ∧
+    "keeppointsandlines=false" ∈ Gen.Flags.defaults ∧ "reversewindingorder=false" ∈ Gen.Flags.defaults := by decide +kernel
 
 end Texel.C05
